@@ -49,6 +49,15 @@ def stream_cfg(open_keys, clash=False):
         cfg.block_shadow = 'c03:block-exit' not in open_keys
         cfg.shadow_global = 'c03:dynamic-scope' not in open_keys
         cfg.escapes = 'c03:string-escapes' not in open_keys
+    # arrays: literals, at, array_length, array parameters / results / globals.  No deliberately out-of-range index (the probe
+    # run that yields the expected values must end normally; the corpus has the out-of-range case), no loop body that assigns
+    # the array its range bound reads (lang:for-bound-reevaluated), at only on variables and literals (lang:at-of-call-untyped)
+    cfg.arrays = True
+    cfg.oob = False
+    cfg.at_on_call = 'lang:at-of-call-untyped' not in open_keys
+    cfg.for_bound_mutated = False
+    # the evaluator evaluates the first element of a literal twice: a printing call there is an open finding (clash stream: always)
+    cfg.literal_first_effect = True if clash else ('c03:array-literal-first-element-twice' not in open_keys)
     return cfg
 
 
@@ -93,6 +102,8 @@ def assert_sites(s):
 
 
 def lit_of(v):
+    if isinstance(v, list):
+        return ('arr', [('num', z) for z in v])
     if isinstance(v, (bytes, bytearray)):
         return ('str', bytes(v))
     return ('bool', v) if isinstance(v, bool) else ('num', v)
@@ -111,6 +122,8 @@ def arg_for(rng, ty, cfg):
         return ('bool', rng.random() < 0.5)
     if ty == 'str':
         return ('str', rng.choice([b'', b'a', b'xy z', b'Q-1']))
+    if ty == 'arr':
+        return ('arr', [('num', rng.randrange(-9, 30)) for _ in range(rng.choice([0, 1, 2, 3, 3, 4]))])
     if cfg.boundary_ints and rng.random() < 0.15:
         return ('num', rng.choice(progen.BOUNDARY))
     return ('num', rng.randrange(-6, 15))
@@ -170,6 +183,11 @@ def parse_probe(out):
 def typed_value(raw, ty):
     if ty == 'str':
         return bytes(raw)
+    if ty == 'arr':
+        m = re.fullmatch(rb'\[(-?\d+(?:, -?\d+)*)?\]', raw)
+        if not m:
+            return None
+        return [int(x) for x in m.group(1).split(b', ')] if m.group(1) else []
     if ty == 'bool':
         return True if raw == b'true' else False if raw == b'false' else None
     try:
@@ -211,6 +229,17 @@ def shadow_body(rng, g, f, arglists, expected, shape=None):
         if f['ret'] == 'void':
             ss.append(('expr', c))
             ss.append(('assert', ('bin', 'eq', ('num', 1), ('num', 1))))
+            continue
+        if f['ret'] == 'arr':
+            # arrays have no ==: the result is printed and its length / an element compared
+            r = g.fresh()
+            if sh in ('direct', 'for'):
+                ss.append(('assert', ('bin', 'eq', ('len', c), ('num', len(exp)))))
+            else:
+                ss += [('let', False, r, 'arr', c), ('print', True, ('var', r)), ('assert', ('bin', 'eq', ('len', ('var', r)), ('num', len(exp))))]
+                if exp:
+                    k = rng.randrange(len(exp))
+                    ss.append(('assert', ('bin', 'eq', ('at', ('var', r), ('num', k)), ('num', exp[k]))))
             continue
         cmp_ = ('bin', 'eq', None, lit_of(exp))
         if sh == 'plain':
@@ -393,6 +422,9 @@ def parse_verbose(stdout, order_names):
 def parse_model_run(line):
     """nvref_c03 interp line -> dict(cls, tests=[(name-int, passed, nfail, [bools], out-bytes)], skipped=[...])"""
     f = line.split(' ')
+    if f[0] == 'oob':
+        return dict(cls='oob', tests=[], skipped=[], raw=line, test=None if f[1] == '-' else int(f[1], 16),
+                    out=b'' if f[2] == '-' else bytes.fromhex(f[2]))
     if f[0] != 'done':
         return dict(cls=f[0], tests=[], skipped=[], raw=line)
     tests = []
@@ -796,6 +828,18 @@ def cmp_model(c):
     """tie: InterpSem/ShadowGate model vs the real nanoc.  Returns discrepancies."""
     bad = []
     m = c.m_interp
+    if m['cls'] == 'oob':
+        # an array index out of bounds inside the evaluator: nanoc prints "Runtime Error: Array index ..." and exits 1 at once
+        if c.r_rc != 1:
+            bad.append('model: the evaluator stops at an out-of-bounds index (nanoc exit 1); real rc=%s' % c.r_rc)
+        if c.r_binary:
+            bad.append('model: no executable after an out-of-bounds index in a shadow test; real: file at the output path')
+        if 'out of bounds' not in c.r_stderr:
+            bad.append('model: "Runtime Error: Array index ... out of bounds" on stderr; real stderr %r' % c.r_stderr[-200:])
+        g = c.m_gate
+        if g.get('cls') != 'exit' or g.get('code') != 1 or g.get('binary'):
+            bad.append('gate model on an out-of-bounds index: %s' % g)
+        return bad
     if m['cls'] != 'done':
         return ['model outcome %s (real rc=%s)' % (m['cls'], c.r_rc)]
     rt = c.r_verbose.get('tests', [])
